@@ -29,6 +29,12 @@ CHECKS = {
  "C13": dict(level="exploration", ref="7/C13",
    text="Seeded search plus the systematic product backend flavour {per-recipient, plain} x transfer {DATA, BDAT} x mode {normal, panic, early failure, out of contract}: 1-4 accepted recipients over two addresses with rejected RCPTs interleaved, drawn subsets/orders/timings of SetStatus calls with parks, return nil/SMTPError/plain error, panic at three points, early failure after k octets (including during the LAST chunk), 1-4 BDAT chunks. Oracle: exactly one final reply per accepted RCPT in RCPT order, each naming its recipient and carrying the status the occurrence rule assigns (k-th status of an address -> its k-th occurrence, else the return value), then the marker and QUIT answered; after a panic no positive reply for a recipient without explicit status and the connection is closed; a bubble deadlock or a goroutine still blocked after one fake hour is a violation (this is the liveness clause).",
    note="Out-of-contract backends (too many statuses, unknown recipient) are judged only for no deadlock / no crash. Statuses a backend set explicitly before panicking are honoured."),
+ "C03": dict(level="exploration", ref="7/C03",
+   text="Seeded command histories (1-25 commands over a 42-symbol abstract alphabet: valid, backend-rejected, malformed, out-of-order and garbage forms of every command) x SMTP/LMTP x MaxRecipients 0/2 x NewSession failures x three sending disciplines, with slow Data returns so aborted chunked deliveries overlap what follows. Refinement check: a five-variable reference envelope machine is advanced by the OBSERVED replies and a trace monitor places every backend callback between two replies (by the octets the server had written when it began): Mail only when greeted in the server's flavour, Rcpt only with an accepted MAIL, Data only with an accepted RCPT, accepted recipients <= max, out-of-order commands answered 5xx without callback, every transaction end followed by a Reset before the next envelope callback, Hostname()/TLS state inside NewSession are those of the greeting being processed.",
+   note="A second MAIL inside a transaction and VRFY/NOOP placement are not judged. 'Signalled by Reset' = at least one Reset between a transaction end and the next envelope callback. TLS histories are in C10."),
+ "C04": dict(level="exploration", ref="7/C04",
+   text="The same histories, with every message carrying a unique tag and its own verdict that the backend derives from the content it read, and aborted deliveries returning late with an error that names the message they belonged to. The client stream and reply stream are walked in tandem by a reference framing model (reply counts computed from the replies: 354, 334, LMTP recipient count, closing notice). Oracles: every reply passes a strict RFC 5321 4.2 parser; every reply except greeting/EHLO/3xx carries an enhanced code of its class; no command is left unanswered while the connection stays open and no unsolicited reply except one closing notice; the final reply of message k is positive iff the backend's Data for the payload tagged k returned nil with EOF seen, a rejection carries E-k, and no reply ever carries another message's or a stale delivery's outcome.",
+   note="8-bit octets and reply line length are not judged; the enhanced code is required on the last line of a reply."),
  "C01": dict(level="exploration", ref="7/C01",
    text="Seeded search plus a systematic sweep of all 5461 bodies over the byte classes {'.',CR,LF,other} up to length 6, each run under a drawn transport segmentation, server short-read plan and backend read-size plan; the octets and terminal error the real dataReader hands the backend are compared with an RFC 5321 reference unstuffer. Sampling, not proof: evidence of byte-exactness over the explored streams x schedules.",
    note="Trusts: the reference unstuffer (cross-checked against a reference stuffer), Go's testing/synctest fake clock, go1.26.8 building go-smtp the same way go1.23.5 does."),
